@@ -12,9 +12,23 @@ import time
 from harness import common
 
 
+GEN_PROPS = ("C04", "C15", "C20")
+
+
+def regen_tables(force: bool) -> dict | None:
+    """coq/gen/*.v mirror what the running code exports; regenerated for the properties that use them."""
+    missing = not (common.COQ / "gen" / "GenDtypes.v").exists() or not (common.COQ / "gen" / "GenConfig.v").exists()
+    if force or missing:
+        from harness import tables
+
+        return tables.regenerate()
+    return None
+
+
 def run_one(pid: str, tier: str, seed: int) -> int:
-    build = common.ensure_built()
     rep = common.Report(pid, tier, seed)
+    gen = regen_tables(pid in GEN_PROPS)
+    build = common.ensure_built()
     if not build.get("ok"):
         # without the model nothing can be decided: that is a broken check, say so loudly
         print(f"BUILD FAILED: {build.get('error')}", file=sys.stderr)
@@ -23,6 +37,8 @@ def run_one(pid: str, tier: str, seed: int) -> int:
     mod = importlib.import_module(f"harness.props.{pid.lower()}")
     model = common.Model()
     try:
+        if gen is not None:
+            rep.gen = gen
         extra = mod.run(tier, seed, rep, model) or {}
     finally:
         model.close()
@@ -37,6 +53,7 @@ def main() -> int:
     a = ap.parse_args()
     seed = common.seed_from_env()
     if a.what == "setup":
+        regen_tables(True)
         st = common.ensure_built(verbose=True)
         print(json.dumps({k: v for k, v in st.items() if k != "props"}, indent=1))
         for pid, info in st.get("props", {}).items():
